@@ -21,6 +21,7 @@ package core
 import (
 	"errors"
 	"fmt"
+	"golang.org/x/net/idna"
 	"net/netip"
 	"net/url"
 	"slices"
@@ -67,19 +68,37 @@ func ParsePublicURLWithScheme(input string, allowReserved bool, allowedSchemes .
 	if len(allowedSchemes) > 0 && !slices.Contains(allowedSchemes, parsed.Scheme) {
 		return nil, fmt.Errorf("scheme must be %s", strings.Join(allowedSchemes, " or "))
 	}
-	// netip.ParseAddr (unlike net.ParseIP) also recognizes IPv6 addresses with a zone, e.g. https://[fe80::1%25eth0]
-	if _, ipErr := netip.ParseAddr(parsed.Hostname()); ipErr == nil && !allowReserved {
-		return nil, errors.New("hostname is IP")
-	}
-	if !allowReserved && isReserved(parsed) {
-		return nil, errors.New("hostname is RFC2606 reserved")
+	if !allowReserved {
+		// The checks must look at the host the HTTP client connects to: it maps a non-ASCII host name to ASCII (IDNA, UTS #46) before dialing,
+		// which e.g. turns fullwidth digits and the ideographic full stop into an IPv4 address (https://１２７.０.０.１, https://127。0。0。1).
+		hostname, err := lookupHostname(parsed.Hostname())
+		if err != nil {
+			return nil, fmt.Errorf("invalid hostname: %w", err)
+		}
+		// netip.ParseAddr (unlike net.ParseIP) also recognizes IPv6 addresses with a zone, e.g. https://[fe80::1%25eth0]
+		if _, ipErr := netip.ParseAddr(hostname); ipErr == nil {
+			return nil, errors.New("hostname is IP")
+		}
+		if isReserved(hostname) {
+			return nil, errors.New("hostname is RFC2606 reserved")
+		}
 	}
 	return parsed, nil
 }
 
-// isReserved returns true if URL uses any of the reserved TLDs or addresses
-func isReserved(URL *url.URL) bool {
-	parts := strings.Split(strings.ToLower(URL.Hostname()), ".")
+// lookupHostname returns the host name as net/http uses it to connect: ASCII as is, anything else mapped with the IDNA lookup profile.
+func lookupHostname(hostname string) (string, error) {
+	for i := 0; i < len(hostname); i++ {
+		if hostname[i] >= 0x80 {
+			return idna.Lookup.ToASCII(hostname)
+		}
+	}
+	return hostname, nil
+}
+
+// isReserved returns true if the host name uses any of the reserved TLDs or addresses
+func isReserved(hostname string) bool {
+	parts := strings.Split(strings.ToLower(hostname), ".")
 	tld := parts[len(parts)-1]
 	if slices.Contains(reservedTLDs, tld) {
 		return true
